@@ -61,5 +61,6 @@ SPEC("pane.convert", "_make_converter_key_f",
 # ConverterHandlers is a frozen dataclass: equality and hash are field-wise (they are cache-key components, C10). If somebody
 # writes them by hand they must still distinguish call-level from class-local handlers.
 SPEC("pane.convert", "ConverterHandlers.__eq__", optional=True,
+     shapes={"self": "rec:ConverterHandlers", "other": "rec:ConverterHandlers", ".globals": "seq", ".class_local": "seq"},
      ensures=[(lambda self, other, result: implies(isinstance(other, ConverterHandlers),
                                                    truthy(result) == (self.globals == other.globals and self.class_local == other.class_local)), ["C10", "C18"], "fieldwise")])
